@@ -61,6 +61,7 @@ type hObs struct {
 	PreGhost  *world.GhostSession // copy of ghost[SID] before the check
 	PreHad    bool
 	PreBorn   time.Time // when the presented session's entry came into being (zero: unknown)
+	PreRemovedBy string  // who last removed the presented session through the store interface ("" never)
 	TokenReqs []*world.TokenReq // token requests made during this check
 	AuthzLoc  string            // Location if the answer redirects to the authorization endpoint
 	NewCode   *world.Code
@@ -196,6 +197,7 @@ func (o hOpts) model(monitors ...hMonitor) seqx.Model {
 					o.PreHad = true
 					o.PreBorn = w.Store.Born[sid]
 				}
+				o.PreRemovedBy = w.Store.RemovedBy[sid]
 			}
 			if h.Presented == nil {
 				h.Presented = map[string]bool{}
@@ -383,6 +385,15 @@ func (o hOpts) model(monitors ...hMonitor) seqx.Model {
 		if o.Rollover && !w.Rolled {
 			out = append(out, seqx.Event{Kind: "rollover"})
 		}
+		// two replicas: every request can be served by either
+		if o.Spec.Replicas == 2 {
+			n := len(base)
+			for i := 0; i < n; i++ {
+				r2 := *base[i].Req
+				r2.Replica = 1
+				base = append(base, seqx.Event{Kind: "req", Req: &r2})
+			}
+		}
 		// expand requests with provider answers and faults, sized by a dry run
 		for _, e := range base {
 			out = append(out, e)
@@ -494,6 +505,11 @@ func (o hOpts) model(monitors ...hMonitor) seqx.Model {
 		fmt.Fprintf(&sb, "|stale=%v|dev=%d|crash=%v|rolled=%v|drift=%v", stale, h.Dev, w.Crashes > 0, w.Rolled, w.Drift != "")
 		if hs := hidden.Dump(w.Raw, "log", "clock", "mu", "sessions", "client", "absoluteSessionTimeout", "idleSessionTimeout"); hs != "{}" {
 			sb.WriteString("|hidden:" + hs)
+		}
+		if w.Raw2 != nil {
+			if hs := hidden.Dump(w.Raw2, "log", "clock", "mu", "sessions", "client", "absoluteSessionTimeout", "idleSessionTimeout"); hs != "{}" {
+				sb.WriteString("|hidden2:" + hs)
+			}
 		}
 		if o.MaxSessions > 0 {
 			fmt.Fprintf(&sb, "|nsid=%d", len(w.Gen.SIDs))
